@@ -250,6 +250,8 @@ class ZoneDomain(Domain):
                 return AVal(None, int(e.value), int(e.value), True)
             if isinstance(e.value, (int, float)):
                 return AVal.const(e.value)
+            if e.value is None:
+                return AVal(None, -INF, INF, False, (), ('none',))
             return AVal.top()
         name = self.varname(e)
         if name is not None:
@@ -418,6 +420,19 @@ class ZoneDomain(Domain):
 
     # ---- assignment ----------------------------------------------------
     def assign(self, s: Zone, x: str, v: AVal, rhs: ast.AST | None = None) -> None:
+        s.facts -= {f'none:{x}', f'some:{x}'}
+        if v.tag == ('none',):
+            s.facts.add(f'none:{x}')
+        elif v.base is not None and v.lo == 0 == v.hi and v.base != x:
+            for k in ('none', 'some'):
+                if f'{k}:{v.base}' in s.facts:
+                    s.facts.add(f'{k}:{x}')
+        elif v.base == x:
+            pass
+        else:
+            lo_, hi_ = self.interval(v, s)
+            if lo_ > -INF or hi_ < INF or isinstance(rhs, (ast.BinOp, ast.Constant)) or v.isint:
+                s.facts.add(f'some:{x}')
         if v.base == x:
             # x := x + [lo, hi]
             s.close()
@@ -480,6 +495,24 @@ class ZoneDomain(Domain):
                     if cn.count('.') == 1:
                         s.forget_prefix(root + '.')
 
+    def _record_bool(self, st: ast.stmt, s: Zone) -> None:
+        """remember `ok = <comparison / and / or / not>` so that `if ok:` refines like the expression"""
+        tgt = val = None
+        if isinstance(st, ast.Assign) and len(st.targets) == 1:
+            tgt, val = st.targets[0], st.value
+        elif isinstance(st, ast.AnnAssign) and st.value is not None:
+            tgt, val = st.target, st.value
+        if not isinstance(tgt, ast.Name):
+            return
+        for k in [k for k in s.aux if k.startswith('bool:')]:
+            if tgt.id in s.aux[k][1]:
+                del s.aux[k]
+        s.aux.pop(f'bool:{tgt.id}', None)
+        if isinstance(val, (ast.Compare, ast.BoolOp)) or (isinstance(val, ast.UnaryOp)
+                                                           and isinstance(val.op, ast.Not)):
+            used = frozenset(n.id for n in ast.walk(val) if isinstance(n, ast.Name))
+            s.aux[f'bool:{tgt.id}'] = (val, used)
+
     def _record_defs(self, st: ast.stmt, s: Zone) -> None:
         targets: list[ast.AST] = []
         if isinstance(st, ast.Assign):
@@ -500,7 +533,14 @@ class ZoneDomain(Domain):
 
     def transfer(self, st: ast.stmt, s: Zone):
         self._record_defs(st, s)
-        return self._transfer(st, s)
+        out = self._transfer(st, s)
+        if out is not None:
+            for t in ([st.target] if isinstance(st, (ast.AugAssign,)) else []):
+                if isinstance(t, ast.Name):
+                    for k in [k for k in out.aux if k.startswith('bool:') and t.id in out.aux[k][1]]:
+                        del out.aux[k]
+            self._record_bool(st, out)
+        return out
 
     def _transfer(self, st: ast.stmt, s: Zone):
         if isinstance(st, ast.Assign):
@@ -514,7 +554,8 @@ class ZoneDomain(Domain):
                 if isinstance(t, ast.Tuple) and isinstance(st.value, ast.Tuple) \
                         and len(t.elts) == len(st.value.elts):
                     vals = [(self.eval(v, s), v) for v in st.value.elts]
-                    ivs = [AVal(None, *self.interval(v, s), v.isint) for v, _ in vals]
+                    ivs = [AVal(None, *self.interval(v, s), v.isint, (), v.tag if v.tag == ('none',) else ())
+                           for v, _ in vals]
                     for el, v in zip(t.elts, ivs):
                         n = self.varname(el)
                         if n is not None:
@@ -580,6 +621,8 @@ class ZoneDomain(Domain):
     def assume(self, test: ast.AST, s: Zone, truth: bool):
         if s is None:
             return None
+        if isinstance(test, ast.Name) and f'bool:{test.id}' in s.aux:
+            return self.assume(s.aux[f'bool:{test.id}'][0], s, truth)
         if isinstance(test, ast.UnaryOp) and isinstance(test.op, ast.Not):
             return self.assume(test.operand, s, not truth)
         if isinstance(test, ast.BoolOp):
@@ -605,6 +648,22 @@ class ZoneDomain(Domain):
                     continue
                 out = o if out is None else out.join(o)
             return out
+        if isinstance(test, ast.Compare) and len(test.ops) == 1 \
+                and isinstance(test.ops[0], (ast.Is, ast.IsNot)) \
+                and isinstance(test.comparators[0], ast.Constant) and test.comparators[0].value is None:
+            x = self.varname(test.left)
+            if x is None:
+                return s
+            want_none = isinstance(test.ops[0], ast.Is) == truth
+            if want_none:
+                if f'some:{x}' in s.facts:
+                    return None
+                s.facts.add(f'none:{x}')
+            else:
+                if f'none:{x}' in s.facts:
+                    return None
+                s.facts.add(f'some:{x}')
+            return s
         if isinstance(test, ast.Compare) and len(test.ops) == 1:
             op = test.ops[0]
             l, r = test.left, test.comparators[0]
@@ -644,6 +703,8 @@ class ZoneDomain(Domain):
         """like assume, but a disjunction yields one state per disjunct"""
         if isinstance(test, ast.UnaryOp) and isinstance(test.op, ast.Not):
             return self.assume_split(test.operand, s, not truth)
+        if isinstance(test, ast.Name) and f'bool:{test.id}' in s.aux:
+            return self.assume_split(s.aux[f'bool:{test.id}'][0], s, truth)
         if isinstance(test, ast.BoolOp):
             is_and = isinstance(test.op, ast.And)
             if is_and == truth:
